@@ -33,7 +33,7 @@ bytes are the same whenever they are drained.
 
 ASSUMPTIONS = ['OwningIovec delivers what was pushed (C03/C04)']
 
-FLOORS = {'R2.1': 4, 'R2.2': 4, 'R2.3': 4, 'R2.4': 8, 'R2.5': 6, 'R2.6': 3, 'R2.7': 30}
+FLOORS = {'R2.1': 4, 'R2.2': 4, 'R2.3': 4, 'R2.4': 8, 'R2.5': 8, 'R2.6': 3, 'R2.7': 30}
 
 ES = 'hcobs::encoder::EncoderState'
 
@@ -82,12 +82,12 @@ def _stuff_idx(e, i):
 def r2_2(cx):
     """stuff constants wired consistently in the hold-back machinery"""
     prog = cx.prog
-    ws = prog.fn(ES + '::write_partial_stuff_sequence')
-    pc = list(ws.calls('OwningIovec::push_copy'))
-    seq0 = prog.const_bytes('hcobs::STUFF_SEQUENCE')[:1].hex()
-    ok = len(pc) == 1 and (any(n.kind == 'agg' and n.info.get('ak') == 'array' and len(n.args) == 1 and _stuff_idx(n.args[0], 0) for n in pc[0].arg(1).walk())
-                           or any(k.info.get('ref_bytes') == seq0 and k.info.get('ty') == '&[u8; 1]' for k in pc[0].arg(1).consts()))
-    cx.check(ok, 'held-back-byte', ws, pc[0].loc() if pc else None, 'the held-back byte is re-emitted as [STUFF_SEQUENCE[0]]', fail_detail='write_partial_stuff_sequence pushes %s' % (show(pc[0].arg(1))[:80] if pc else '?'))
+    # every one-byte push of the encoder is the held-back first stuff byte (write_partial_stuff_sequence, read through)
+    sites = [(f, cs) for f in method_fns(prog, ES) if f.kind != 'Closure' for cs in f.calls('OwningIovec::push_copy') if _one_byte_push(cs)]
+    bad = [(f, cs) for f, cs in sites if not _is_stuff0_push(prog, cs)]
+    cx.check(len(sites) >= 2 and not bad, 'held-back-byte', sites[0][0] if sites else None, sites[0][1].loc() if sites else None,
+             'the held-back byte is re-emitted as [STUFF_SEQUENCE[0]] (%d sites)' % len(sites),
+             fail_detail='a one-byte push is not [STUFF_SEQUENCE[0]]: %s' % [show(cs.arg(1))[:60] for f, cs in bad] if bad else 'fewer than 2 held-back-byte emission sites')
     co = prog.fn(ES + '::consume_once')
     # hold-back test: self.maybe_mid_stuff = input[len-1] == STUFF_SEQUENCE[0]
     hb = False
@@ -238,38 +238,61 @@ def r2_4(cx):
         cx.check(len(cs) == 1 and len(list(fs[0].calls())) == 1, 'sink:' + m, fs[0], None, 'ZeroCopySink::%s == %s' % (m, short(inner)), fail_detail='the sink impl does more than delegate')
 
 
+def _is_stuff0_push(prog, cs):
+    """push_copy(&[STUFF_SEQUENCE[0]])"""
+    seq0 = prog.const_bytes('hcobs::STUFF_SEQUENCE')[:1].hex()
+    a = cs.arg(1)
+    return any(n.kind == 'agg' and n.info.get('ak') == 'array' and len(n.args) == 1 and _stuff_idx(n.args[0], 0) for n in a.walk()) \
+        or any(k.info.get('ref_bytes') == seq0 and k.info.get('ty') == '&[u8; 1]' for k in a.consts())
+
+
+def _one_byte_push(cs):
+    a = cs.arg(1)
+    return any(n.kind == 'agg' and n.info.get('ak') == 'array' and len(n.args) == 1 for n in a.walk()) or any(k.info.get('ty') == '&[u8; 1]' for k in a.consts())
+
+
 def r2_5(cx):
     """bounded chunks: every growth of current_chunk_size is asserted <= max; terminate asserts < max"""
     prog = cx.prog
-    for nm in ('write', 'copy', 'write_partial_stuff_sequence'):
-        fn = prog.fn(ES + '::' + nm)
+    # (write_partial_stuff_sequence is read through: it is always inlined into its callers, see normalize.ALWAYS_INLINE)
+    n_growth = 0
+    for fn in method_fns(prog, ES):
+        if fn.kind == 'Closure':
+            continue
         stores = [(pos, fn.rvalue_expr(rv).strip()) for pos, pl, rv in fn.stores() if pl['p'] and pl['p'][-1].get('n') == 'current_chunk_size' and rv is not None]
-        cx.count_sites()
-        ok = len(stores) == 1 and stores[0][1].kind == 'binop' and stores[0][1].op == 'Add' and is_param_field(stores[0][1].a, 'current_chunk_size')
-        if ok:
-            inc = stores[0][1].b.strip()
-            pushes = [cs for cs in fn.calls() if cs.matches('OwningIovec::push') or cs.matches('OwningIovec::push_copy')]
-            if nm == 'write_partial_stuff_sequence':
-                ok = inc.is_const_int(1) and len(pushes) == 1
-            else:
-                ok = is_call(inc, 'len') and inc.args[0].strip().kind == 'param' and len(pushes) == 1 and pushes[0].arg(1).strip().kind == 'param' and \
-                    pushes[0].arg(1).strip().info['i'] == inc.args[0].strip().info['i']
-        if ok:
-            pos = stores[0][0]
-            # after the store, every path to return passes the edge asserting current <= max
-            good_edges = []
-            for b in fn.live_blocks():
-                be = fn.bool_edges(b)
-                if be is None:
-                    continue
-                rel = as_relation((fn.switch_expr(b), True))
-                if rel and rel[0] == 'Le' and is_param_field(rel[1], 'current_chunk_size') and is_call(rel[2], 'NonZero::get'):
-                    good_edges.append(((b, be[0]), b))
-            ok = bool(good_edges) and all(fn.pos_dominates(pos, Pos(b, 0)) or pos.bb == b for _, b in good_edges) and \
-                fn.path(pos.bb, fn.returns(), cut_edges=[e for e, _ in good_edges], cut_blocks=[]) is not None and \
-                all(fn.path(e[1], fn.returns()) is None for e, _ in good_edges)
-        cx.check(ok, 'asserted:' + nm, fn, None, 'push(payload); current_chunk_size += payload.len() (the same payload); assert!(current_chunk_size <= max_chunk_size)',
-                 fail_detail='%s grows the chunk without asserting the limit' % nm)
+        pushes = [cs for cs in fn.calls() if cs.matches('OwningIovec::push') or cs.matches('OwningIovec::push_copy')]
+        for k, (pos, v) in enumerate(stores):
+            cx.count_sites()
+            n_growth += 1
+            inst = 'asserted:%s#%d' % (short(fn.name).split('::')[-1], k)
+            ok = v.kind == 'binop' and v.op == 'Add' and any(is_param_field(x, 'current_chunk_size') for x in (v.a, v.b))
+            what = '?'
+            if ok:
+                inc = (v.b if is_param_field(v.a, 'current_chunk_size') else v.a).strip()
+                before = [p for p in pushes if fn.pos_dominates(p.pos, pos)]
+                if inc.is_const_int(1):
+                    # the held-back byte: one push of [STUFF_SEQUENCE[0]] before the count moves by one
+                    ok = any(_is_stuff0_push(prog, p) for p in before)
+                    what = 'push_copy(&[STUFF_SEQUENCE[0]]); current_chunk_size += 1'
+                else:
+                    ok = is_call(inc, 'len') and inc.args[0].strip().kind == 'param' and len(pushes) == 1 and len(before) == 1 and \
+                        before[0].arg(1).strip().kind == 'param' and before[0].arg(1).strip().info['i'] == inc.args[0].strip().info['i']
+                    what = 'push(payload); current_chunk_size += payload.len() (the same payload)'
+            if ok:
+                # after the store, every path to return passes the edge asserting current <= max
+                asserts = []
+                for b in fn.live_blocks():
+                    be = fn.bool_edges(b)
+                    if be is None:
+                        continue
+                    rel = as_relation((fn.switch_expr(b), True))
+                    if rel and rel[0] == 'Le' and is_param_field(rel[1], 'current_chunk_size') and is_call(rel[2], 'NonZero::get') \
+                            and fn.path(be[0], fn.returns()) is None and (fn.pos_dominates(pos, Pos(b, 0)) or pos.bb == b):
+                        asserts.append(b)
+                ok = bool(asserts) and (pos.bb in asserts or fn.path(pos.bb, fn.returns(), cut_blocks=asserts) is None)
+            cx.check(ok, inst, fn, fn.loc(pos.bb, pos.idx), what + '; assert!(current_chunk_size <= max_chunk_size)',
+                     fail_detail='%s changes current_chunk_size without (the matching push and) the limit assertion' % short(fn.name))
+    cx.check(n_growth >= 4, 'growth-sites', None, 'hcobs/src/encoder.rs', '%d stores grow current_chunk_size' % n_growth, fail_detail='only %d growth sites found' % n_growth)
     tm = prog.fn(ES + '::terminate')
     eh = list(tm.calls(ES + '::encode_header'))
     ok = len(eh) == 1 and any((r := as_relation((e, v))) and r[0] == 'Lt' and is_param_field(r[1], 'current_chunk_size') and is_call(r[2], 'NonZero::get')
